@@ -947,6 +947,65 @@ def scenario(name: str, kind: str, tmp: str) -> tuple[bool, str]:
             b2.app.trigger.trigger_loop_iteration()
             n2 = len(b1.new_launches())
         return n1 + n2 != 1, f"cron `* * * * *`: runner 1 fires at :05 ({n1} launch), a second app object registers the same condition, its loop at :15 launches {n2} more for the same minute"
+    if name == "same-named-filters-in-two-modules":
+        from harness import c13_tasks as T13
+        from harness.c13_rules import eu, us
+        from pynenc.trigger.trigger_builder import TriggerBuilder
+
+        app = fresh_app(kind, tmp, f"c13fsn{kind}")
+        ta = app.task(T13.target, triggers=[TriggerBuilder().on_event("order", eu.accepts).with_args_from_event(T13.args_from_event)])
+        tb = app.task(T13.target2, triggers=[TriggerBuilder().on_event("order", us.accepts).with_args_from_event(T13.args_from_event)])
+        app.register_deferred_triggers()
+        got: dict[str, list] = {}
+        seen: set = set()
+        with VirtualClock(T0) as clk:
+            for region in ("us", "eu", "asia", "us"):
+                app.trigger.emit_event("order", {"n": region})
+                for _ in range(2):
+                    app.trigger.trigger_loop_iteration()
+                    clk.advance(2 * US_SEC)
+                now_ = []
+                for nm, t in (("target", ta), ("target2", tb)):
+                    for inv_id in app.orchestrator.get_task_invocation_ids(t.task_id):
+                        if inv_id not in seen:
+                            seen.add(inv_id)
+                            now_.append((nm, str(app.state_backend.get_invocation(inv_id).call.arguments.kwargs.get("tag"))))
+                got.setdefault(region, []).append(sorted(now_))
+        want = {"us": [[("target2", "us")], [("target2", "us")]], "eu": [[("target", "eu")]], "asia": [[]]}
+        return got != want, (f"two triggers on event `order`, each with a payload filter called `accepts` (modules c13_rules.eu / c13_rules.us); events us, eu, asia, us one at a "
+                             f"time: launches per event {got}, expected {want}")
+    if name == "trigger-redefined-by-another-runner":
+        from harness import c13_tasks as T13
+        from pynenc.trigger.trigger_builder import TriggerBuilder
+
+        if kind != "sqlite":
+            return False, "shared store needed"
+        db = os.path.join(tmp, f"c13frd{os.getpid()}.db")
+        tags = []
+        with VirtualClock(T0) as clk:
+            a1 = fresh_app(kind, tmp, "c13frd", db=db)
+            t1 = a1.task(T13.target, triggers=[TriggerBuilder().on_event("deploy").with_args_static({"tag": "old"})])
+            a1.register_deferred_triggers()
+            a1.trigger.emit_event("deploy", {"n": "1"})
+            a1.trigger.trigger_loop_iteration()
+            clk.advance(5 * US_SEC)
+            # a rolling update: another runner of the same application registers the same trigger with other arguments
+            a2 = fresh_app(kind, tmp, "c13frd", db=db)
+            a2.task(T13.target, triggers=[TriggerBuilder().on_event("deploy").with_args_static({"tag": "new"})])
+            a2.register_deferred_triggers()
+            clk.advance(5 * US_SEC)
+            a1.trigger.emit_event("deploy", {"n": "2"})
+            a1.trigger.trigger_loop_iteration()          # the OLD runner serves the second event
+            clk.advance(5 * US_SEC)
+            a2.trigger.emit_event("deploy", {"n": "3"})
+            a2.trigger.trigger_loop_iteration()
+            for inv_id in a2.orchestrator.get_task_invocation_ids(t1.task_id):
+                tags.append(str(a2.state_backend.get_invocation(inv_id).call.arguments.kwargs.get("tag")))
+            stored = [str(t.argument_provider.get_arguments if False else "") for t in []]
+        _ = stored
+        return sorted(tags) != ["new", "new", "old"], (f"sqlite, two runners of one application on one store: runner A registers a trigger on `deploy` with static arguments tag=old and serves "
+                                                      f"event 1; runner B registers the SAME trigger with tag=new; event 2 is served by A's loop, event 3 by B's: launches carry tags "
+                                                      f"{sorted(tags)}, expected ['new', 'new', 'old'] (the stored definition is what every loop launches with)")
     raise ValueError(name)
 
 
@@ -963,6 +1022,8 @@ SCENARIOS = {
     "cron-first-poll-off-schedule": "cron-first-poll-fires-off-schedule",
     "cron-short-window": "cron-window-shorter-than-a-minute-ignored",
     "cron-reregistered-by-second-app": "cron-reregistration-resets-last-execution:sqlite",
+    "same-named-filters-in-two-modules": "filters-with-one-name-share-a-condition",
+    "trigger-redefined-by-another-runner": "loop-launches-with-a-stale-trigger-definition",
 }
 
 
